@@ -111,9 +111,11 @@ func (s *dockerService) Handle(ctx context.Context, conn net.Conn) error {
 
 	defer conn.Close()
 
-	for {
+	// one buffered reader per connection: a reader per request would drop
+	// whatever it had read ahead (the next pipelined request)
+	br := bufio.NewReader(conn)
 
-		br := bufio.NewReader(conn)
+	for {
 
 		req, err := http.ReadRequest(br)
 		if err == io.EOF {
